@@ -467,6 +467,56 @@ def check_total_helpers(repo: Repo, rep: Report, tier: str):
     rep.ok("C19.total-helpers", "fickling/analysis path", f"{len(scope)} functions scanned: {n_sites} computed-key lookup(s) in literal tables", "")
 
 
+def check_opcode_properties(repo: Repo, rep: Report):
+    """Properties of opcode objects that the analyses read must be total over what the parser can put into the opcode:
+    an exception raised by `opcode.<prop>` inside an analysis escapes check_safety although the pickle decompiles (the
+    interpreter never reads e.g. PROTO's version)."""
+    from ..minieval import PyRaise, Unsupported
+    from ..model import opcode_registry
+    from ..objeval import ObjEval
+    from .c15 import _DESC_REPS, _label
+
+    readers = [f for f in repo.functions.values() if f.module.name in ("fickling.analysis", "fickling.ml")]
+    read_attrs = {n.attr for f in readers for n in body_walk(f.node) if isinstance(n, ast.Attribute) and isinstance(n.ctx, ast.Load)}
+    oe = ObjEval(repo)
+    ops, _ = opcode_registry(repo)
+    extra = {"uint1": list(range(0, 8)) + [127, 128, 254, 255], "uint2": [0, 1, 255, 256, 65535], "uint4": [0, 1, 2**31, 2**32 - 1]}
+    n_props = 0
+    for oc in ops:
+        c = oc.cls
+        arg = oc.info.arg.name if oc.info.arg else None
+        seen = set()
+        for k in repo.mro_classes(c):
+            for name, fs in k.methods.items():
+                for f in fs:
+                    if f.kind != "property" or name in seen or name not in read_attrs:
+                        continue
+                    seen.add(name)
+                    n_props += 1
+                    reps = [r for r in _DESC_REPS.get(arg, [()]) if r != ()] + extra.get(arg, [])
+                    if arg in ("uint1", "uint2", "uint4"):
+                        reps = [r for r in reps if isinstance(r, int) and 0 <= r < 2 ** (8 * int(arg[-1]))]
+                        reps += [r.to_bytes(int(arg[-1]), "little") for r in list(reps)]
+                    if arg is None:
+                        reps = [None]
+                    bad = None
+                    for r in reps:
+                        try:
+                            inst = oe.ref(c)(r, 0, b"\x00")
+                            inst.sa_attr(name)
+                        except PyRaise as pe:
+                            bad = (r, pe.name)
+                            break
+                        except Unsupported as e:
+                            raise AnalysisError(f"C19.total-helpers: cannot interpret {k.qualname}.{name} for {oc.opname}({_label(r) if r is not None else None}): {e}")
+                    if bad:
+                        rep.bad("C19.total-helpers", f"{k.qualname}.{name}", f"opcode-property-raises:{oc.opname}", f"`{c.name}({_label(bad[0]) if bad[0] is not None else None}).{name}` raises {bad[1]}; the analyses read `.{name}` of every such opcode, so check_safety raises instead of returning a verdict for a pickle that decompiles (the interpreter never reads this property)", k.module.relpath, f.line)
+                    else:
+                        rep.ok("C19.total-helpers", f"{k.qualname}.{name}", f"{oc.opname}: `.{name}` is defined for all {len(reps)} representative argument(s) of `{arg}`", f"{k.module.relpath}:{f.line}")
+    if n_props == 0:
+        raise AnalysisError("no opcode property read by an analysis was found (Proto.version on the pinned tree)")
+
+
 def run(rep: Report, tier: str):
     repo = load_repo()
     rep.explanation = (
@@ -484,3 +534,4 @@ def run(rep: Report, tier: str):
     check_report(repo, rep)
     check_node_shape(repo, rep)
     check_total_helpers(repo, rep, tier)
+    check_opcode_properties(repo, rep)
